@@ -425,10 +425,21 @@ def check_transition(world, cfg, pre, ev, log, exc, newly, post):
     return errs
 
 
+def linked_top(scratch):
+    """the watched directory is reached through a symbolic link (/data -> /mnt/disk1/data): the handler, the events
+    and the re-scan are all given the link path"""
+    real = os.path.join(scratch, "mnt", "disk1", "data")
+    os.makedirs(real)
+    link = os.path.join(scratch, "data")
+    os.symlink(real, link)
+    return link
+
+
 def explore(args):
     cfg, max_states, max_depth = args
     part = core.new_part()
-    top = core.new_scratch()
+    scratch = core.new_scratch()
+    top = linked_top(scratch)
     world = World(top, cfg)
     evs = events()
     seen = {EMPTY: None}
@@ -505,13 +516,14 @@ def explore(args):
             part["samples"].append({"config": list(cfg), "states": len(states), "closed": not capped,
                                     "example_state": states[len(states) // 2]})
     finally:
-        core.rm(top)
+        core.rm(scratch)
     return part
 
 
 def replay(case):
     cfg = tuple(case["config"])
-    top = core.new_scratch()
+    scratch = core.new_scratch()
+    top = linked_top(scratch)
     out = []
     try:
         world = World(top, cfg)
@@ -525,7 +537,7 @@ def replay(case):
             if exc is not None:
                 break
     finally:
-        core.rm(top)
+        core.rm(scratch)
     return out
 
 
